@@ -422,7 +422,8 @@ Definition on_future (g : gcfg) (s : st) (id : N) (r : fres) : st * list out :=
 (* ---- user commands ---- *)
 Inductive cmd :=
 | CFindNode | CPutRecord (qr : quorum) | CStartProviding (qr : quorum)
-| CGetRecord (qr : quorum) (local : bool) | CGetProviders.
+| CGetRecord (qr : quorum) (local : bool) | CGetProviders
+| CRefresh (qr : quorum).      (* MemoryStoreAction::RefreshProvider: the store republishes a local provider *)
 
 Definition LOCAL_REC : N := 77.                  (* record id of the locally stored record *)
 
@@ -438,7 +439,8 @@ Definition on_cmd (g : gcfg) (s : st) (q : N) (c : cmd) (dists seeds : list N) :
   match c with
   | CFindNode => (start_lookup g s q LFind QOne (lcfg g V.C15.Model.KFind 0 0 dists) seeds, [])
   | CPutRecord qr => (start_lookup g s q LPut qr (lcfg g V.C15.Model.KFind 0 0 dists) seeds, [])
-  | CStartProviding qr => (start_lookup g s q LProv qr (lcfg g V.C15.Model.KFind 0 0 dists) seeds, [])
+  | CStartProviding qr | CRefresh qr =>
+      (start_lookup g s q LProv qr (lcfg g V.C15.Model.KFind 0 0 dists) seeds, [])
   | CGetProviders => (start_lookup g s q LGetProv QOne (lcfg g V.C15.Model.KProviders 0 0 dists) seeds, [])
   | CGetRecord qr local =>
       match qr, local with
@@ -576,6 +578,7 @@ Definition quorum_of_ev (q : N) (e : ev) : option quorum :=
   match e with
   | ECmd q' (CPutRecord qr) _ _ => if q' =? q then Some qr else None
   | ECmd q' (CStartProviding qr) _ _ => if q' =? q then Some qr else None
+  | ECmd q' (CRefresh qr) _ _ => if q' =? q then Some qr else None
   | EPutToPeers q' qr _ => if q' =? q then Some qr else None
   | _ => None
   end.
